@@ -66,7 +66,7 @@ func classes(msg string) string {
 		}
 		// errors of component constructors and of library text parsers (not part of config decoding)
 		for _, s := range []string{"cant create ReadSeekCloser", "unknown decoder type", "NewProvider", "unknown time zone",
-			"HTTP/2.0 over TCP", "UnmarshalText", "unrecognized level"} {
+			"HTTP/2.0 over TCP", "UnmarshalText", "unrecognized level", "decoder init error"} {
 			if has(s) {
 				return "ctor"
 			}
